@@ -222,7 +222,8 @@ in `doQuery`'s own goroutine, which nothing recovers. -/
 def Query.setStartTimeTraps (q : Query) : Bool :=
   q.alignGroup && q.gbLinked && (match q.gb with | some (len, _) => len == 0 | none => false)
 
-def newQuery := newQueryWith splice
+def newQuery (user : Option Cond) (gb : Option (Int × Int)) (alignGroup : Bool) (extra : String := "") : Query :=
+  newQueryWith splice user gb alignGroup extra
 
 /-- `SetStartTime`: write the literal; under alignGroup recompute the group-by offset
 (`s.Sub(time.Unix(0,0)) % groupByTimeDL.Val`, Go's truncated remainder). -/
